@@ -35,8 +35,9 @@ ASSUME = ["identifier values 0 and 2^32-1 are valid and are used (each special k
 SYMS = ["HS", "REQ", "REQ_missing", "REQ_unknown_cmd", "REQ_unknown_app", "REQ_foreign_realm", "REQ_no_realm",
         "REQ_T", "REQ_raise", "ANS_stray", "ANS_no_origin", "ANS_no_result", "CEA_no_origin", "CEA_stray",
         "DWA_stray", "DWA_no_origin", "DPA_stray", "DPA_no_result", "DWR", "DPR", "NODE_REQ", "NODE_REQ_ANS",
-        "ADV2", "ADV_IDLE", "REQ_hold", "SUBMIT", "RECONNECT", "REQ2_seg", "DWR_REQ_seg", "REQ_DWR_seg", "REQ_exp_result", "REQ_dup_avp", "REQ_dup_avp_T", "REQ_non_utf8_origin", "DWR_non_utf8_origin", "DPR_non_utf8_origin", "REQ_answer_then_raise", "REQ_hold_then_raise", "HS_bad_host_ip"]
-DEFECTIVE = {"ANS_stray", "ANS_no_origin", "ANS_no_result", "CEA_no_origin", "CEA_stray", "DWA_stray",
+        "ADV2", "ADV_IDLE", "REQ_hold", "SUBMIT", "RECONNECT", "REQ2_seg", "DWR_REQ_seg", "REQ_DWR_seg", "REQ_exp_result", "REQ_dup_avp", "REQ_dup_avp_T", "REQ_non_utf8_origin", "DWR_non_utf8_origin", "DPR_non_utf8_origin", "REQ_answer_then_raise", "REQ_hold_then_raise", "HS_bad_host_ip",
+        "DWA_T_echo", "ANS_T_echo"]
+DEFECTIVE = {"DWA_T_echo", "ANS_T_echo", "ANS_stray", "ANS_no_origin", "ANS_no_result", "CEA_no_origin", "CEA_stray", "DWA_stray",
              "DWA_no_origin", "DPA_stray", "DPA_no_result", "REQ_missing", "REQ_unknown_cmd", "REQ_unknown_app",
              "REQ_foreign_realm", "REQ_no_realm", "REQ_raise", "REQ_T", "REQ_dup_avp", "REQ_dup_avp_T", "REQ_non_utf8_origin", "DWR_non_utf8_origin", "DPR_non_utf8_origin"}
 
@@ -96,6 +97,7 @@ def evaluate(case) -> Result:
             return None
         w.behaviour_fn = beh
         last_req = {}
+        last_dwr = {}
         pending_node_req = {}
         used_special = set()
         for ev in case["events"]:
@@ -218,6 +220,15 @@ def evaluate(case) -> Result:
                 res.classes.append("segmented-read")
             elif s == "DWR":
                 w.feed_msg(c, dict(base, k="DWR"))
+                last_dwr[ci] = base["e2e"]
+            elif s in ("DWA_T_echo", "ANS_T_echo"):
+                # a received *answer* carrying the T flag and the end-to-end id of a request of this origin that the node
+                # has answered (header bits of an answer are the sender's business; the node answers requests only)
+                j = last_dwr.get(ci) if s == "DWA_T_echo" else last_req.get(ci)
+                w.feed_msg(c, dict(base, k="DWA" if s == "DWA_T_echo" else "ANS", flags=0x10 if s == "DWA_T_echo" else 0x50,
+                                   e2e=j if j is not None else base["e2e"]))
+                if j is not None:
+                    res.classes.append("answer:t-flag-echoing-answered-id")
             elif s == "DPR":
                 w.feed_msg(c, dict(base, k="DPR"))
             elif s == "NODE_REQ":
@@ -451,7 +462,7 @@ def run(tier, scale=1.0):
     rec = Recorder(PID)
     for d in hyp.pool_run(shard_main, (tier, scale)):
         rec.merge(d)
-    required = {f"sym:{s}": 1 for s in SYMS} | {"machine:c17": 1, "machine:c11": 1, "machine:c12": 1, "machine:c09": 1, "schedule-exploration": 1, "dup-avp:264:untyped": 1, "dup-avp:283:untyped": 1, "dup-avp:264:typed": 1, "ids:zero-hbh": 1, "ids:e2e-repeat": 1, "window:2": 1, "ids:zero-e2e": 1, "ids:both-zero": 1, "nconn:3": 1, "app:threading": 1, "out0:True": 1, "defective": 1}
+    required = {f"sym:{s}": 1 for s in SYMS} | {"machine:c17": 1, "machine:c11": 1, "machine:c12": 1, "machine:c09": 1, "schedule-exploration": 1, "dup-avp:264:untyped": 1, "dup-avp:283:untyped": 1, "dup-avp:264:typed": 1, "ids:zero-hbh": 1, "ids:e2e-repeat": 1, "answer:t-flag-echoing-answered-id": 1, "window:2": 1, "ids:zero-e2e": 1, "ids:both-zero": 1, "nconn:3": 1, "app:threading": 1, "out0:True": 1, "defective": 1}
     return finish(rec, tier=tier, level="exploration", rule=RULE, assumptions=ASSUME, t0=t0,
                   required_classes=required)
 
